@@ -39,6 +39,23 @@ func (g *FnGen) envAt(st, old *State, rs []SVal) *Env {
 	return e
 }
 
+// mentions reports whether a term bound in the environment contains the symbol name.
+func (e *Env) mentions(name string) bool {
+	for _, v := range e.bound {
+		if strings.Contains(v.S, name) {
+			return true
+		}
+	}
+	if e.depth > 0 { // inside a predicate body: vars are the actuals
+		for _, v := range e.vars {
+			if strings.Contains(v.S, name) {
+				return true
+			}
+		}
+	}
+	return false
+}
+
 func (e *Env) fail(f string, a ...interface{}) {
 	loc := ""
 	if e.clause != nil {
@@ -116,6 +133,11 @@ func (g *FnGen) eval(env *Env, x Expr) SVal {
 				srt = w.sortOf(t)
 			}
 			name := q("b:" + p.Name)
+			// capture avoidance: a predicate argument (or an outer bound variable) may already mention a bound
+			// variable of the same name
+			for k := 1; env.mentions(name); k++ {
+				name = q(fmt.Sprintf("b:%s'%d", p.Name, k))
+			}
 			n.bound[p.Name] = SVal{Term{name, srt}, t}
 			decls = append(decls, fmt.Sprintf("(%s %s)", name, srt))
 			if t != nil {
